@@ -41,20 +41,20 @@ func FindProcess(pid int) (*os.Process, error) { return os.FindProcess(pid) }
 // ---- virtual process table (reset per execution by the harness) ----
 
 type World struct {
-	mu       sync.Mutex
-	pidOf    map[int]int  // thread id -> pid
-	alive    map[int]bool // pid -> alive
-	Crashes  int          // crashes still allowed
-	crashed  map[int]bool
-	OnCrash  func(pid int)
+	mu      sync.Mutex
+	pidOf   map[int]int  // thread id -> pid
+	alive   map[int]bool // pid -> alive
+	Crashes int          // crashes still allowed
+	crashed map[int]bool
+	OnCrash func(pid int)
 	// lock-file ownership tracking for classifying a mutual exclusion failure
-	gen         int
-	owner       int  // pid that created the current lock file (0 = none / pre-existing)
-	ownerWrote  bool // owner finished writing its pid
-	lastView    map[int]string // pid -> what the process last observed about the lock file
-	HarmfulLog  []string
-	FirstHarm   string
-	Events      []string
+	gen        int
+	owner      int            // pid that created the current lock file (0 = none / pre-existing)
+	ownerWrote bool           // owner finished writing its pid
+	lastView   map[int]string // pid -> what the process last observed about the lock file
+	HarmfulLog []string
+	FirstHarm  string
+	Events     []string
 }
 
 var W *World
